@@ -37,6 +37,24 @@ Proof.
   - destruct (H3 r s H) as (_ & _ & c & Hc & Hx). exists c. split; [now apply Hp|exact Hx].
 Qed.
 
+(* trace level: in any state reached by the loop (invariant MInv over the processed prefix), whenever an iteration
+   adds a prediction to an ALREADY matched reference, the combined score after is strictly better (at least as
+   good and not equal) than the combined score before, which is the recorded one *)
+Theorem C14_every_merge_strictly_improves : forall decr thr (score_union : Z -> list Z -> Q) pre c st,
+  MInv Q (better_eq decr) (fun s => beats decr s thr) score_union pre st ->
+  fst c = score_union (cref c) [cpred c] ->
+  has_ref (cref c) (ms_map st) = true ->
+  let st' := merge_step (better_eq decr) Qeq_bool (fun s => beats decr s thr) score_union st c in
+  ms_map st' <> ms_map st ->
+  ms_map st' = ms_map st ++ [(cpred c, cref c)] /\
+  better_eq decr (score_union (cref c) (preds_of (cref c) (ms_map st) ++ [cpred c])) (score_union (cref c) (preds_of (cref c) (ms_map st))) = true /\
+  Qeq_bool (score_union (cref c) (preds_of (cref c) (ms_map st) ++ [cpred c])) (score_union (cref c) (preds_of (cref c) (ms_map st))) = false /\
+  lookup_score (cref c) (ms_score st) = Some (score_union (cref c) (preds_of (cref c) (ms_map st))) /\
+  lookup_score (cref c) (ms_score st') = Some (score_union (cref c) (preds_of (cref c) (ms_map st) ++ [cpred c])).
+Proof.
+  intros decr thr score_union pre c st HI Hs Hr st'. apply (merge_strictly_improves Q (better_eq decr) Qeq_bool (fun s => beats decr s thr) score_union pre c st HI Hs Hr).
+Qed.
+
 (* a merge is accepted only when the combined score is strictly better in the metric's direction:
    the decision table of one loop iteration (tied to the source by Gen/MatcherLoop) *)
 Theorem C14_merge_only_if_strictly_better : forall cp cr beat nb ne,
